@@ -15,6 +15,8 @@ import sys
 import tempfile
 
 VERIF = os.path.dirname(os.path.dirname(os.path.abspath(__file__)))
+BASE = os.environ.get("SEED_BASE", "/tmp/wt")      # where the sub-agents' out/<x>/ directories are
+TAG = os.environ.get("SEED_TAG", "")               # e.g. "2" for the second round: seeded/<ID>-2a
 
 
 def sh(cmd, cwd=None, env=None, timeout=600):
@@ -28,7 +30,7 @@ def sh(cmd, cwd=None, env=None, timeout=600):
 
 
 def verify(pid, x):
-    src = "/tmp/wt/%s/out/%s" % (pid, x)
+    src = "%s/%s/out/%s" % (BASE, pid, x)
     patch = os.path.join(src, "patch.diff")
     demo = os.path.join(src, "demo.py")
     if not (os.path.exists(patch) and os.path.exists(demo)):
@@ -58,7 +60,7 @@ def verify(pid, x):
                   "tests_tail": out.strip().splitlines()[-1] if out.strip() else ""}
         ok = tests_ok and rc_with != 0 and rc_without == 0
         if ok:
-            dst = os.path.join(VERIF, "seeded", "%s-%s" % (pid, x))
+            dst = os.path.join(VERIF, "seeded", "%s-%s%s" % (pid, TAG, x))
             os.makedirs(dst, exist_ok=True)
             shutil.copy(patch_used, os.path.join(dst, "patch.diff"))
             shutil.copy(demo, os.path.join(dst, "demo.py"))
@@ -82,7 +84,7 @@ if __name__ == "__main__":
     from concurrent.futures import ThreadPoolExecutor
     todo = []
     for pid in sys.argv[1:]:
-        base = "/tmp/wt/%s/out" % pid
+        base = "%s/%s/out" % (BASE, pid)
         if os.path.isdir(base):
             for x in sorted(os.listdir(base)):
                 todo.append((pid, x))
